@@ -56,18 +56,29 @@ VectorOf(idx, d, f) ==
 \* character offsets: the analysed text is the tokens joined by one space; a removed stop word
 \* (gap) is the 3-letter word; every letter of the alphabet is one character
 TokLen(tok) == IF tok = Gap THEN 3 ELSE Len(tok)
-RECURSIVE StartChar(_, _)
-StartChar(toks, i) == IF i = 1 THEN 0 ELSE StartChar(toks, i - 1) + TokLen(toks[i - 1]) + 1
+\* the boost a token was typed with, in quarters (word^2 -> 8): 4 where nothing was typed; the two characters of
+\* the suffix are part of the text but not of the token
+TokB(idx, d, f, i) == LET D == Doc(idx, d)
+                      IN IF "tb" \in DOMAIN D /\ f \in DOMAIN D.tb /\ i <= Len(D.tb[f]) THEN D.tb[f][i] ELSE 4
+Suffix(idx, d, f, i) == IF TokB(idx, d, f, i) = 4 THEN 0 ELSE 2
+RECURSIVE StartChar(_, _, _, _, _)
+StartChar(idx, d, f, toks, i) == IF i = 1 THEN 0
+                                 ELSE StartChar(idx, d, f, toks, i - 1) + TokLen(toks[i - 1]) + Suffix(idx, d, f, i - 1) + 1
 CharsOf(idx, d, f, t) ==      \* <<position, startchar, endchar>> of every occurrence, in position order
   LET toks == Toks(idx, d, f)
       ps == SetToSortSeq(Positions(idx, d, f, t), <)
-  IN [k \in DOMAIN ps |-> <<ps[k], StartChar(toks, ps[k] + 1), StartChar(toks, ps[k] + 1) + Len(t)>>]
+  IN [k \in DOMAIN ps |-> <<ps[k], StartChar(idx, d, f, toks, ps[k] + 1), StartChar(idx, d, f, toks, ps[k] + 1) + Len(t)>>]
 CharList(idx, f, t) ==
   LET ids == SetToSortSeq({d \in Live(idx) : Tf(idx, d, f, t) > 0}, <)
   IN [i \in DOMAIN ids |-> <<ids[i], CharsOf(idx, ids[i], f, t)>>]
 
-\* stored weight of a posting = frequency * document boost (field boost 1), in units of 1/Unit
-W(idx, d, f, t) == Scale(Tf(idx, d, f, t) * Unit, Doc(idx, d).b4)
+\* stored weight of a posting = sum of the boosts of the term's occurrences (1 each unless typed otherwise)
+\* * document boost (field boost 1), in units of 1/Unit
+SumB(idx, d, f, t) == LET P == {j \in DOMAIN Toks(idx, d, f) : Toks(idx, d, f)[j] = t}
+                          RECURSIVE S(_)
+                          S(Q) == IF Q = {} THEN 0 ELSE LET j == CHOOSE x \in Q : TRUE IN TokB(idx, d, f, j) + S(Q \ {j})
+                      IN S(P)
+W(idx, d, f, t) == Scale((SumB(idx, d, f, t) * Unit) \div 4, Doc(idx, d).b4)
 WeightList(idx, f, t) ==
   LET ids == SetToSortSeq({d \in Live(idx) : Tf(idx, d, f, t) > 0}, <)
   IN [i \in DOMAIN ids |-> <<ids[i], W(idx, ids[i], f, t)>>]
